@@ -60,6 +60,7 @@ def run_history(dom, prob, seed, n_calls=12, log=None):
     results = []
     fails = []
     calls = [c for c in G.scenario_calls()] + [("sb", ("o2",))]
+    memo = {}
     for step in range(n_calls):
         kind = rnd.choice(["new-op", "applicable", "apply", "apply", "reapply", "print", "export", "serialize", "copy", "parse-other", "typed"])
         desc = kind
@@ -79,6 +80,9 @@ def run_history(dom, prob, seed, n_calls=12, log=None):
                 results.append(("applicable", c, s, a1))
                 if a1 != a2:
                     fails.append((step, f"repeating is_applicable {c} on state {s} changed its answer", a1, a2))
+                # ... also when the same question was asked earlier in the history, through whatever operator object
+                if memo.setdefault(("applicable", c, s), a1) != a1:
+                    fails.append((step, f"is_applicable {c} on state {s} answers differently than earlier in this history", memo[("applicable", c, s)], a1))
                 desc = f"applicable {c} s{s}"
             elif kind in ("apply", "reapply"):
                 c, op = rnd.choice(ops) if kind == "reapply" else ops[-1]
@@ -91,6 +95,9 @@ def run_history(dom, prob, seed, n_calls=12, log=None):
                     results.append(("apply", c, s, allow, skip, repr(sorted(snaps[-1][0])), repr(sorted(snaps[-1][1].items()))))
                 except ValueError:
                     results.append(("apply", c, s, allow, skip, "ValueError"))
+                if memo.setdefault(("apply", c, s, allow, skip), results[-1][5:]) != results[-1][5:]:
+                    fails.append((step, f"apply {c} on state {s} (allow={allow}, skip={skip}) gives a different result than earlier in this history",
+                                  str(memo[("apply", c, s, allow, skip)])[:300], str(results[-1][5:])[:300]))
                 desc = f"{kind} {c} s{s} allow={allow} skip={skip}"
             elif kind == "print":
                 for a in dom.actions.values():
